@@ -14,7 +14,7 @@ from atsim.potentials import Potential, EAMPotential
 from atsim.potentials.referencedata._data import reference_data as BUILTIN
 
 REAL_ELS = ["Al", "Cu", "Ni", "Fe", "Ag", "U", "Zr", "Mg", "Au", "Pt", "Ti", "Nb"]
-FAKE_ELS = ["Xx", "Q1", "Zz2", "Ni_core1", "Fe_shel2"]      # (8 characters is the longest label DL_POLY takes: fixed-width headers must not fuse them - seed C04_7)
+FAKE_ELS = ["Xx", "Q1", "Zz2", "Ni_core1", "Fe_shel2", "al", "zn", "c", "AL", "NI"]      # (8 characters is the longest label DL_POLY takes: fixed-width headers must not fuse them - seed C04_7)
 LATTICES = ["fcc", "bcc", "hcp", "diamond"]
 
 
@@ -54,6 +54,11 @@ def gen_model(rng, fs, potable, nmax=4, allow_undeclared=True, kmax=4, nr_max=12
     n = rng.randint(1, nmax)
     pool = REAL_ELS + (FAKE_ELS if rng.random() < 0.4 else [])
     els = rng.sample(pool, n)
+    if n >= 2 and rng.random() < 0.12:
+        # two labels that differ only in case, or whose plain and case-blind orders differ (round-10 seeds C03_15, C05_15: pair keys sorted without regard to case)
+        v = rng.choice([els[0].upper(), els[0].lower(), els[0].swapcase()])
+        if v not in els:
+            els[1] = v
     fid = itertools.count(1)
     k = rng.randint(1, kmax)
     nr = rng.randint(2, nr_max)
